@@ -1,5 +1,980 @@
-//! C18 — not built yet.
+//! C18 — the Box language round-trips every expressible list; its parser is total.
+//! Engine: BEX. DESIGN.md §3 C18.
+//!
+//! Lists:   print (element by element through `Display`, and as a whole list through `ToBoxLang` +
+//!          `cst::pretty_print`) -> `parse_horizontal_list` (vertical: `cst::parse` + `parse_vbox_using_cst`)
+//!          must give the list back; `format` of the printed text is idempotent and keeps the meaning.
+//! Sources: every string over lexeme alphabets: `Ok` or located errors, never a panic; when it parses,
+//!          `format` is idempotent and keeps the meaning, and the parsed list round-trips.
+
+use boxworks::ds::{self, DiscretionaryElem as D, Horizontal as H, Vertical as V};
+use boxworks::lang::convert::{ToBoxLang, ToBoxworks};
+use boxworks::lang::{self, ast, cst};
+use common::{Glue, GlueOrder, Scaled};
+use reftex::boxl;
+use serde_json::{json, Value};
+use vcore::{catch, Acc, Ctx, Level};
+
+const ORDERS: [GlueOrder; 4] = [GlueOrder::Normal, GlueOrder::Fil, GlueOrder::Fill, GlueOrder::Filll];
+const MAXD: i32 = (1 << 30) - 1;
+
+// ------------------------------------------------------------------------------------------------
+// menus
+// ------------------------------------------------------------------------------------------------
+
+fn ch(c: char, font: u32) -> H {
+    H::Char(ds::Char { char: c, font })
+}
+fn kern(w: i32) -> H {
+    H::Kern(ds::Kern { width: Scaled(w), kind: ds::KernKind::Normal })
+}
+fn glue(w: i32, st: i32, so: GlueOrder, sh: i32, sho: GlueOrder) -> H {
+    H::Glue(ds::Glue { kind: ds::GlueKind::Normal, value: Glue { width: Scaled(w), stretch: Scaled(st), stretch_order: so, shrink: Scaled(sh), shrink_order: sho } })
+}
+fn rule(h: i32, w: i32, d: i32) -> H {
+    H::Rule(ds::Rule { height: Scaled(h), width: Scaled(w), depth: Scaled(d) })
+}
+fn lig(c: char, orig: &str, font: u32, l: bool, r: bool) -> H {
+    H::Ligature(ds::Ligature { char: c, font, original_chars: orig.into(), includes_left_boundary: l, includes_right_boundary: r })
+}
+fn hbox(dims: [i32; 4], ratio: (i32, i32), order: GlueOrder, list: Vec<H>) -> ds::HBox {
+    ds::HBox { height: Scaled(dims[0]), width: Scaled(dims[1]), depth: Scaled(dims[2]), shift_amount: Scaled(dims[3]), list, glue_ratio: ds::GlueRatio { num: Scaled(ratio.0), den: Scaled(ratio.1) }, glue_order: order }
+}
+fn vbox(dims: [i32; 4], list: Vec<V>) -> ds::VBox {
+    ds::VBox { height: Scaled(dims[0]), width: Scaled(dims[1]), depth: Scaled(dims[2]), shift_amount: Scaled(dims[3]), list, ..Default::default() }
+}
+fn insertion(n: u8, dims: [i32; 2], skip: Glue, fp: u32, list: Vec<V>) -> H {
+    H::Insertion(ds::Insertion { box_number: n, height: Scaled(dims[0]), split_max_depth: Scaled(dims[1]), split_top_skip: skip, float_penalty: fp, vbox: list })
+}
+fn h_to_v(h: &H) -> Option<V> {
+    Some(match h {
+        H::HBox(b) => V::HBox(b.clone()),
+        H::VBox(b) => V::VBox(b.clone()),
+        H::Rule(b) => V::Rule(b.clone()),
+        H::Mark(b) => V::Mark(b.clone()),
+        H::Insertion(b) => V::Insertion(b.clone()),
+        H::Math(b) => V::Math(b.clone()),
+        H::Glue(b) => V::Glue(b.clone()),
+        H::Kern(b) => V::Kern(b.clone()),
+        H::Penalty(b) => V::Penalty(b.clone()),
+        _ => return None,
+    })
+}
+fn h_to_d(h: &H) -> Option<D> {
+    Some(match h {
+        H::Char(b) => D::Char(b.clone()),
+        H::HBox(b) => D::HBox(b.clone()),
+        H::VBox(b) => D::VBox(b.clone()),
+        H::Rule(b) => D::Rule(b.clone()),
+        H::Ligature(b) => D::Ligature(b.clone()),
+        H::Kern(b) => D::Kern(b.clone()),
+        _ => return None,
+    })
+}
+fn some_v_list() -> Vec<V> {
+    vec![V::Penalty(ds::Penalty(7)), V::Glue(ds::Glue { kind: ds::GlueKind::Normal, value: Glue { width: Scaled(3), stretch: Scaled(65536), stretch_order: GlueOrder::Fill, ..Default::default() } }), V::Kern(ds::Kern { width: Scaled(-9), kind: ds::KernKind::Normal })]
+}
+
+/// Every node kind at its value boundaries (the property's domain: no double quote, normal kerns and
+/// glue, legal dimensions).
+fn full_menu() -> Vec<H> {
+    let mut m: Vec<H> = vec![];
+    for c in boxl::CHARS {
+        for f in boxl::FONTS {
+            m.push(ch(c, f));
+        }
+    }
+    for w in boxl::SCALED {
+        m.push(kern(w));
+    }
+    for p in boxl::PENALTIES {
+        m.push(H::Penalty(ds::Penalty(p)));
+    }
+    for w in boxl::SCALED {
+        for so in ORDERS {
+            for sho in ORDERS {
+                m.push(glue(w, w / 3, so, -(w / 7), sho));
+            }
+        }
+    }
+    for o in ORDERS {
+        m.push(glue(0, MAXD, o, -MAXD, o));
+        m.push(glue(-MAXD, -1, o, 1, GlueOrder::Normal));
+    }
+    let rd = [i32::MIN, 0, 65537];
+    for h in rd {
+        for w in rd {
+            for d in rd {
+                m.push(rule(h, w, d));
+            }
+        }
+    }
+    for w in boxl::SCALED {
+        m.push(rule(w, 65536, -w));
+    }
+    for c in ['x', '\\', '\u{10ffff}'] {
+        for orig in ["", "fi", "f|", "é-", "\\n", " \t"] {
+            for (l, r) in [(false, false), (true, false), (false, true), (true, true)] {
+                for f in [0, u32::MAX] {
+                    m.push(lig(c, orig, f, l, r));
+                }
+            }
+        }
+    }
+    m.push(H::Discretionary(ds::Discretionary::new()));
+    m.push(H::Discretionary(ds::Discretionary { pre_break: vec![D::Char(ds::Char { char: '-', font: 0 }), D::Kern(ds::Kern { width: Scaled(5), kind: ds::KernKind::Normal })], post_break: vec![h_to_d(&lig('f', "ff", 0, false, false)).unwrap()], replace_count: 3 }));
+    for rc in [1, 255, i32::MAX as u32, u32::MAX] {
+        m.push(H::Discretionary(ds::Discretionary { pre_break: vec![], post_break: vec![], replace_count: rc }));
+    }
+    for e in [ch('a', 0), ch('b', u32::MAX), H::HBox(hbox([1, 2, 3, 4], (1, 2), GlueOrder::Fil, vec![ch('q', 0)])), H::VBox(vbox([1, 2, 3, 4], some_v_list())), rule(i32::MIN, 1, i32::MIN), lig('x', "ab", 1, true, false), kern(-1)] {
+        let d = h_to_d(&e).unwrap();
+        m.push(H::Discretionary(ds::Discretionary { pre_break: vec![d.clone()], post_break: vec![], replace_count: 0 }));
+        m.push(H::Discretionary(ds::Discretionary { pre_break: vec![], post_break: vec![d.clone(), d], replace_count: 2 }));
+    }
+    for r in boxl::RATIOS {
+        for o in ORDERS {
+            m.push(H::HBox(hbox([1, -2, 3, -4], r, o, vec![ch('q', 0)])));
+            m.push(H::HBox(hbox([0, 0, 0, 0], r, o, vec![])));
+        }
+    }
+    for w in boxl::SCALED {
+        for k in 0..4 {
+            let mut dims = [65536, 2 * 65536, 0, 0];
+            dims[k] = w;
+            m.push(H::HBox(hbox(dims, (0, 1), GlueOrder::Normal, vec![kern(1)])));
+            m.push(H::VBox(vbox(dims, vec![])));
+        }
+    }
+    m.push(H::HBox(hbox([1, 2, 3, 4], (1, 3), GlueOrder::Fill, vec![ch('a', 0), ch('b', 0), ch('c', 1), kern(2), ch('d', 1)])));
+    m.push(H::VBox(vbox([1, 2, 3, 4], some_v_list())));
+    m.push(H::VBox(vbox([0, 0, 0, 0], vec![V::HBox(hbox([1, 1, 1, 1], (1, 1), GlueOrder::Normal, vec![ch('z', 2)])), V::Rule(ds::Rule { height: Scaled(i32::MIN), width: Scaled(i32::MIN), depth: Scaled(26214) }), V::Mark(ds::Mark { list: vec![] }), V::Math(ds::Math::After)])));
+    m.push(H::Math(ds::Math::Before));
+    m.push(H::Math(ds::Math::After));
+    m.push(H::Mark(ds::Mark { list: vec![] }));
+    m.push(H::Adjust(ds::Adjust { list: vec![] }));
+    m.push(H::Adjust(ds::Adjust { list: vec![V::Penalty(ds::Penalty(1))] }));
+    m.push(H::Adjust(ds::Adjust { list: vec![V::VBox(vbox([1, 0, 0, 0], some_v_list())), V::Kern(ds::Kern { width: Scaled(1), kind: ds::KernKind::Normal })] }));
+    for n in [0u8, 1, 255] {
+        for fp in [0u32, 10000, u32::MAX] {
+            m.push(insertion(n, [1, 2], Glue { width: Scaled(3), ..Default::default() }, fp, vec![]));
+        }
+    }
+    for w in boxl::SCALED_SHORT {
+        for o in ORDERS {
+            m.push(insertion(7, [w, -w], Glue { width: Scaled(w), stretch: Scaled(w / 2), stretch_order: o, shrink: Scaled(-w), shrink_order: o }, 4, some_v_list()));
+        }
+    }
+    m
+}
+
+/// A short menu with one or two representatives of every node kind, for longer lists and nesting.
+fn reduced_menu() -> Vec<H> {
+    let mut m = vec![ch('a', 0), ch('b', 0), ch('\\', 0), ch('é', 1), ch('\n', u32::MAX), ch('\u{10ffff}', 1), kern(0), kern(-1), kern(MAXD), H::Penalty(ds::Penalty(0)), H::Penalty(ds::Penalty(i32::MAX)), H::Penalty(ds::Penalty(-10000))];
+    m.push(glue(0, 0, GlueOrder::Normal, 0, GlueOrder::Normal));
+    m.push(glue(65536, 21845, GlueOrder::Fil, -9362, GlueOrder::Filll));
+    m.push(glue(-MAXD, MAXD, GlueOrder::Normal, 1, GlueOrder::Fill));
+    m.push(rule(i32::MIN, 26214, i32::MIN));
+    m.push(rule(1, -1, 0));
+    m.push(lig('x', "fi", 0, false, false));
+    m.push(lig('\\', "é-", u32::MAX, true, true));
+    m.push(H::Discretionary(ds::Discretionary::new()));
+    m.push(H::Discretionary(ds::Discretionary { pre_break: vec![D::Char(ds::Char { char: '-', font: 0 }), D::Kern(ds::Kern { width: Scaled(5), kind: ds::KernKind::Normal })], post_break: vec![h_to_d(&lig('f', "ff", 0, false, true)).unwrap()], replace_count: 3 }));
+    m.push(H::HBox(hbox([0, 0, 0, 0], (0, 1), GlueOrder::Normal, vec![])));
+    m.push(H::HBox(hbox([1, -2, 3, -4], (1, 3), GlueOrder::Fil, vec![ch('q', 0), ch('r', 0), kern(7)])));
+    m.push(H::HBox(hbox([1, 1, 1, 1], (-5, 7), GlueOrder::Filll, vec![glue(1, 2, GlueOrder::Fill, 3, GlueOrder::Normal)])));
+    m.push(H::VBox(vbox([0, 0, 0, 0], vec![])));
+    m.push(H::VBox(vbox([MAXD, -1, 32768, 1], some_v_list())));
+    m.push(H::Math(ds::Math::Before));
+    m.push(H::Math(ds::Math::After));
+    m.push(H::Mark(ds::Mark { list: vec![] }));
+    m.push(H::Adjust(ds::Adjust { list: vec![] }));
+    m.push(H::Adjust(ds::Adjust { list: vec![V::Penalty(ds::Penalty(1)), V::Rule(ds::Rule { height: Scaled(1), width: Scaled(i32::MIN), depth: Scaled(2) })] }));
+    m.push(insertion(255, [1, 2], Glue { width: Scaled(3), ..Default::default() }, u32::MAX, vec![]));
+    m.push(insertion(0, [-1, 32768], Glue { width: Scaled(3), stretch: Scaled(4), stretch_order: GlueOrder::Fil, shrink: Scaled(5), shrink_order: GlueOrder::Fill }, 4, some_v_list()));
+    m
+}
+
+/// Nodes whose scaled contents are not legal TeX dimensions (|x| >= 2^30): outside the round-trip
+/// domain, but the text they print is a text, so the parser must still not panic on it.
+fn beyond_menu() -> Vec<H> {
+    let mut m = vec![];
+    for w in boxl::SCALED_BEYOND {
+        m.push(kern(w));
+        for o in ORDERS {
+            m.push(glue(w, w, o, w, o));
+            m.push(glue(0, w, o, 0, GlueOrder::Normal));
+        }
+        m.push(H::HBox(hbox([w, 0, 0, 0], (0, 1), GlueOrder::Normal, vec![])));
+        m.push(H::VBox(vbox([0, 0, 0, w], vec![])));
+        if w != i32::MIN {
+            m.push(rule(w, w, w));
+        }
+        m.push(insertion(0, [w, w], Glue { width: Scaled(w), ..Default::default() }, 0, vec![]));
+        m.push(H::Discretionary(ds::Discretionary { pre_break: vec![D::Kern(ds::Kern { width: Scaled(w), kind: ds::KernKind::Normal })], post_break: vec![], replace_count: 0 }));
+    }
+    m
+}
+
+// ------------------------------------------------------------------------------------------------
+// D20 predicate (on the case)
+// ------------------------------------------------------------------------------------------------
+
+fn d20_boxes_h(l: &[H]) -> usize {
+    l.iter()
+        .map(|h| match h {
+            H::HBox(b) => d20_hbox(b),
+            H::VBox(b) => d20_boxes_v(&b.list),
+            H::Adjust(a) => d20_boxes_v(&a.list),
+            H::Insertion(i) => d20_boxes_v(&i.vbox),
+            H::Discretionary(d) => d20_boxes_d(&d.pre_break) + d20_boxes_d(&d.post_break),
+            _ => 0,
+        })
+        .sum()
+}
+fn d20_hbox(b: &ds::HBox) -> usize {
+    boxl::d20_applies(b.glue_ratio.num.0, b.glue_ratio.den.0) as usize + d20_boxes_h(&b.list)
+}
+fn d20_boxes_v(l: &[V]) -> usize {
+    l.iter()
+        .map(|v| match v {
+            V::HBox(b) => d20_hbox(b),
+            V::VBox(b) => d20_boxes_v(&b.list),
+            V::Insertion(i) => d20_boxes_v(&i.vbox),
+            _ => 0,
+        })
+        .sum()
+}
+fn d20_boxes_d(l: &[D]) -> usize {
+    l.iter()
+        .map(|d| match d {
+            D::HBox(b) => d20_hbox(b),
+            D::VBox(b) => d20_boxes_v(&b.list),
+            _ => 0,
+        })
+        .sum()
+}
+
+// ------------------------------------------------------------------------------------------------
+// the subject, wrapped
+// ------------------------------------------------------------------------------------------------
+
+/// What a parse error looks like from outside: variant name, parameter name (IncorrectType), label
+/// spans, and whether message/notes could be produced.
+#[derive(Debug, Clone, PartialEq)]
+struct ErrInfo {
+    variant: String,
+    parameter: String,
+    spans: Vec<(usize, usize)>,
+}
+fn err_info(e: &lang::Error) -> ErrInfo {
+    let _ = e.message();
+    let _ = e.notes();
+    let dbg = format!("{e:?}");
+    let variant = dbg.split(|c: char| !c.is_alphanumeric()).next().unwrap_or("").to_string();
+    let parameter = match e {
+        lang::Error::IncorrectType { parameter_name, .. } => parameter_name.to_string(),
+        _ => String::new(),
+    };
+    ErrInfo { variant, parameter, spans: e.labels().into_iter().map(|l| (l.span.start, l.span.end)).collect() }
+}
+type Parsed<T> = Result<Vec<T>, Vec<ErrInfo>>;
+fn parse_h(s: &str) -> Parsed<H> {
+    lang::parse_horizontal_list(s).map_err(|es| es.iter().map(err_info).collect())
+}
+fn parse_v(s: &str) -> Parsed<V> {
+    let errs: lang::ErrorAccumulator = Default::default();
+    let calls = cst::parse(s, errs.clone());
+    let v = ast::parse_vbox_using_cst(calls, &errs);
+    match errs.check() {
+        Ok(()) => Ok(v.to_boxworks()),
+        Err(es) => Err(es.iter().map(err_info).collect()),
+    }
+}
+fn format(s: &str) -> Result<String, Vec<ErrInfo>> {
+    lang::format(s).map_err(|es| es.iter().map(err_info).collect())
+}
+fn print_h_elements(l: &[H]) -> String {
+    l.iter().map(|h| h.to_string()).collect()
+}
+fn print_h_list(l: &Vec<H>) -> String {
+    let v = l.to_box_lang();
+    let mut s = String::new();
+    cst::pretty_print(&mut s, ast::lower_hbox(&v)).expect("writing to a string");
+    s
+}
+fn print_v_list(l: &Vec<V>) -> String {
+    let v = l.to_box_lang();
+    let mut s = String::new();
+    cst::pretty_print(&mut s, ast::lower_vbox(&v)).expect("writing to a string");
+    s
+}
+
+// ------------------------------------------------------------------------------------------------
+// list checks
+// ------------------------------------------------------------------------------------------------
+
+/// Failure classes of the whole run (count, smallest index, its note), printed with VERIF_FAIL_CLASSES=1.
+static FAIL_CLASSES: std::sync::Mutex<std::collections::BTreeMap<String, (u64, u64, String)>> = std::sync::Mutex::new(std::collections::BTreeMap::new());
+
+/// Record a failure and its class (the note up to the first ':' or ';', plus the panic site if any).
+fn fail(acc: &mut Acc, idx: u64, case: Value, expected: impl Into<String>, observed: impl Into<String>, note: impl Into<String>) {
+    let (observed, note) = (observed.into(), note.into());
+    let head = note.split([':', ';']).next().unwrap_or("").trim().to_string();
+    let site = observed.strip_prefix("panic at ").and_then(|r| r.split(": ").next()).map(|s| format!(" [{s}]")).unwrap_or_default();
+    let class = format!("FAIL {head}{site}");
+    acc.class(&class);
+    if let Ok(mut g) = FAIL_CLASSES.lock() {
+        let e = g.entry(class).or_insert((0, u64::MAX, String::new()));
+        e.0 += 1;
+        if idx < e.1 || e.2.is_empty() {
+            e.1 = idx;
+            e.2 = format!("{} => {}", vcore::clip(&note, 260), vcore::clip(&observed, 200));
+        }
+    }
+    acc.fail(idx, case, expected, observed, note);
+}
+
+#[derive(Clone, Copy, PartialEq)]
+enum Judge {
+    /// the property's domain: round trip, format idempotence, meaning preservation
+    Full,
+    /// outside the round-trip domain: only "the printed text does not panic the parser"
+    TotalityOnly,
+}
+
+/// The round trip of one printed text. `want_eq(parsed)` compares with the original list.
+#[allow(clippy::too_many_arguments)]
+fn check_text<T: PartialEq + std::fmt::Debug>(idx: u64, how: &str, text: &str, d20: usize, judge: Judge, parse: &dyn Fn(&str) -> Parsed<T>, list: &[T], acc: &mut Acc, case: &dyn Fn() -> Value) -> bool {
+    let parsed = match catch(|| parse(text)) {
+        Ok(p) => p,
+        Err(p) => {
+            fail(acc, idx, case(), "the list, or located errors", p.describe(), format!("parsing the text printed {how} panicked: {}", vcore::clip(&text.replace('\n', " "), 200)));
+            return false;
+        }
+    };
+    if judge == Judge::TotalityOnly {
+        acc.class(match &parsed {
+            Ok(l) if l.as_slice() == list => "outside the domain: round-trips",
+            Ok(_) => "outside the domain: parses to a different list",
+            Err(_) => "outside the domain: printed text is rejected with errors",
+        });
+        return true;
+    }
+    match parsed {
+        Err(errs) => {
+            // D20: predicate on the case + adjusted expectation (one IncorrectType error for glue_ratio per offending box)
+            if d20 > 0 && errs.len() == d20 && errs.iter().all(|e| e.variant == "IncorrectType" && e.parameter == "glue_ratio") {
+                if !acc.known.contains_key("D20") || how.starts_with("element") || how.contains("vertical") {
+                    // one hit per list: the second printer of the same list is not counted again
+                    acc.known("D20", idx, || json!({"case": case(), "printed": text, "errors": format!("{errs:?}")}));
+                    acc.class("D20: glue ratio >= 16384 prints but does not parse");
+                }
+                return false;
+            }
+            fail(acc, idx, case(), format!("{list:?}"), format!("errors {errs:?}"), format!("the text printed {how} does not parse: {}", vcore::clip(&text.replace('\n', " "), 300)));
+            false
+        }
+        Ok(back) => {
+            if back.as_slice() != list {
+                fail(acc, idx, case(), format!("{list:?}"), format!("{back:?}"), format!("round trip ({how}) gives a different list; text: {}", vcore::clip(&text.replace('\n', " "), 300)));
+                return false;
+            }
+            // format: idempotent, meaning preserved
+            let r = catch(|| {
+                let f1 = format(text)?;
+                let f2 = format(&f1);
+                let p = parse(&f1);
+                Ok::<_, Vec<ErrInfo>>((f1, f2, p))
+            });
+            match r {
+                Err(p) => {
+                    fail(acc, idx, case(), "formatted text", p.describe(), format!("format panicked on the text printed {how}"));
+                    false
+                }
+                Ok(Err(errs)) => {
+                    fail(acc, idx, case(), "formatted text", format!("errors {errs:?}"), format!("format rejects a text that parses ({how}): {}", vcore::clip(&text.replace('\n', " "), 300)));
+                    false
+                }
+                Ok(Ok((f1, f2, p))) => {
+                    if f2.as_ref() != Ok(&f1) {
+                        fail(acc, idx, case(), f1.clone(), format!("{f2:?}"), format!("format is not idempotent ({how})"));
+                        return false;
+                    }
+                    if p.as_ref().map(|l| l.as_slice() == list) != Ok(true) {
+                        fail(acc, idx, case(), format!("{list:?}"), format!("{p:?}"), format!("format changes what the text parses to ({how}); formatted: {}", vcore::clip(&f1.replace('\n', " "), 300)));
+                        return false;
+                    }
+                    if f1 != text {
+                        acc.count("format_rewrites_printed_text");
+                    }
+                    true
+                }
+            }
+        }
+    }
+}
+
+fn kinds_h(l: &[H]) -> String {
+    l.iter()
+        .map(|h| match h {
+            H::Char(_) => "char",
+            H::HBox(_) => "hbox",
+            H::VBox(_) => "vbox",
+            H::Rule(_) => "rule",
+            H::Mark(_) => "mark",
+            H::Insertion(_) => "insertion",
+            H::Adjust(_) => "adjust",
+            H::Ligature(_) => "lig",
+            H::Discretionary(_) => "disc",
+            H::Whatsit(_) => "whatsit",
+            H::Math(_) => "math",
+            H::Glue(_) => "glue",
+            H::Kern(_) => "kern",
+            H::Penalty(_) => "penalty",
+        })
+        .collect::<Vec<_>>()
+        .join("+")
+}
+
+fn check_hlist(idx: u64, list: &Vec<H>, judge: Judge, acc: &mut Acc, sel: &dyn Fn() -> Value) {
+    acc.eval();
+    let d20 = d20_boxes_h(list);
+    let case = || json!({"kind": "hlist", "sel": sel(), "list": vcore::clip(&format!("{list:?}"), 1500)});
+    if list.len() >= 2 || list.iter().any(|h| matches!(h, H::HBox(_) | H::VBox(_) | H::Discretionary(_) | H::Adjust(_) | H::Insertion(_))) {
+        acc.nontrivial();
+    }
+    if list.windows(2).any(|w| matches!((&w[0], &w[1]), (H::Char(a), H::Char(b)) if a.font == b.font)) {
+        acc.count("adjacent_chars_same_font_merge");
+    }
+    if list.windows(2).any(|w| matches!((&w[0], &w[1]), (H::Char(a), H::Char(b)) if a.font != b.font)) {
+        acc.count("adjacent_chars_different_font");
+    }
+    if d20 > 0 {
+        acc.count("glue_ratio_ge_16384");
+    }
+    // two printers
+    let mut all_ok = true;
+    for (how, printer) in [("element by element (Display)", &(|| print_h_elements(list)) as &dyn Fn() -> String), ("as a list (ToBoxLang + pretty_print)", &|| print_h_list(list))] {
+        let text = match catch(printer) {
+            Ok(t) => t,
+            Err(p) => {
+                if judge == Judge::Full {
+                    fail(acc, idx, case(), "text", p.describe(), format!("printing {how} panicked"));
+                } else {
+                    acc.class("outside the domain: printing panics");
+                }
+                all_ok = false;
+                continue;
+            }
+        };
+        if text.contains('\\') {
+            acc.count("text_has_escape");
+        }
+        all_ok &= check_text(idx, how, &text, d20, judge, &parse_h, list, acc, &case);
+    }
+    if all_ok && judge == Judge::Full {
+        if list.len() <= 2 {
+            acc.class(&format!("ok {}", vcore::clip(&kinds_h(list), 40)));
+        } else {
+            acc.class(&format!("ok {} nodes", list.len()));
+        }
+    }
+}
+
+fn check_vlist(idx: u64, list: &Vec<V>, acc: &mut Acc, sel: &dyn Fn() -> Value) {
+    acc.eval();
+    let d20 = d20_boxes_v(list);
+    let case = || json!({"kind": "vlist", "sel": sel(), "list": vcore::clip(&format!("{list:?}"), 1500)});
+    if list.len() >= 2 {
+        acc.nontrivial();
+    }
+    if d20 > 0 {
+        acc.count("glue_ratio_ge_16384");
+    }
+    let text = match catch(|| print_v_list(list)) {
+        Ok(t) => t,
+        Err(p) => {
+            fail(acc, idx, case(), "text", p.describe(), "printing the vertical list panicked");
+            return;
+        }
+    };
+    if check_text(idx, "as a vertical list", &text, d20, Judge::Full, &parse_v, list, acc, &case) {
+        acc.class("ok vertical list");
+    }
+}
+
+// ------------------------------------------------------------------------------------------------
+// source checks
+// ------------------------------------------------------------------------------------------------
+
+fn check_errors(idx: u64, s: &str, what: &str, errs: &[ErrInfo], acc: &mut Acc, case: &dyn Fn() -> Value) -> bool {
+    if errs.is_empty() {
+        fail(acc, idx, case(), "at least one error", "Err(vec![])", format!("{what}: Err without any error"));
+        return false;
+    }
+    for e in errs {
+        if e.spans.is_empty() {
+            fail(acc, idx, case(), "an error with a span", format!("{e:?}"), format!("{what}: error without a location"));
+            return false;
+        }
+        for (a, b) in &e.spans {
+            if !boxl::span_ok(s, *a, *b) {
+                fail(acc, idx, case(), format!("a span inside 0..{} on character boundaries", s.len()), format!("{e:?}"), format!("{what}: error span is not inside the source"));
+                return false;
+            }
+        }
+    }
+    true
+}
+
+fn check_source(idx: u64, s: &str, acc: &mut Acc) {
+    acc.eval();
+    let case = || json!({"kind": "source", "text": s});
+    // horizontal parse
+    let ph = match catch(|| parse_h(s)) {
+        Ok(p) => p,
+        Err(p) => {
+            fail(acc, idx, case(), "a list or located errors", p.describe(), format!("parse_horizontal_list panicked: {}", vcore::clip(s, 120)));
+            return;
+        }
+    };
+    // vertical parse and format: totality
+    let pv = match catch(|| parse_v(s)) {
+        Ok(p) => p,
+        Err(p) => {
+            fail(acc, idx, case(), "a list or located errors", p.describe(), format!("the vertical-list parser panicked: {}", vcore::clip(s, 120)));
+            return;
+        }
+    };
+    let fm = match catch(|| format(s)) {
+        Ok(f) => f,
+        Err(p) => {
+            fail(acc, idx, case(), "text or located errors", p.describe(), format!("format panicked: {}", vcore::clip(s, 120)));
+            return;
+        }
+    };
+    if let Err(e) = &pv {
+        if !check_errors(idx, s, "vertical parse", e, acc, &case) {
+            return;
+        }
+    }
+    if let Err(e) = &fm {
+        if !check_errors(idx, s, "format", e, acc, &case) {
+            return;
+        }
+    }
+    // format is idempotent whenever it succeeds
+    if let Ok(f1) = &fm {
+        match catch(|| format(f1)) {
+            Err(p) => {
+                fail(acc, idx, case(), f1.clone(), p.describe(), "format panicked on its own output");
+                return;
+            }
+            Ok(f2) => {
+                if f2.as_ref() != Ok(f1) {
+                    fail(acc, idx, case(), f1.clone(), format!("{f2:?}"), "format is not idempotent");
+                    return;
+                }
+            }
+        }
+    }
+    match ph {
+        Err(errs) => {
+            if !check_errors(idx, s, "horizontal parse", &errs, acc, &case) {
+                return;
+            }
+            let mut vs: Vec<&str> = errs.iter().map(|e| e.variant.as_str()).collect();
+            vs.sort();
+            vs.dedup();
+            acc.class(&format!("err {}", vcore::clip(&vs.join(","), 80)));
+            if fm.is_ok() {
+                acc.count("format_accepts_what_parse_rejects");
+            }
+        }
+        Ok(list) => {
+            if !list.is_empty() {
+                acc.nontrivial();
+            }
+            let Ok(f1) = fm else {
+                fail(acc, idx, case(), "formatted text", format!("{fm:?}"), "format rejects a text that parses");
+                return;
+            };
+            match catch(|| parse_h(&f1)) {
+                Err(p) => {
+                    fail(acc, idx, case(), format!("{list:?}"), p.describe(), format!("parsing the formatted text panicked: {}", vcore::clip(&f1, 200)));
+                    return;
+                }
+                Ok(p) => {
+                    if p.as_ref() != Ok(&list) {
+                        fail(acc, idx, case(), format!("{list:?}"), format!("{p:?}"), format!("format changes what the text parses to; formatted: {}", vcore::clip(&f1.replace('\n', " "), 300)));
+                        return;
+                    }
+                }
+            }
+            if f1 != s {
+                acc.count("format_changes_source");
+            }
+            // and the parsed list is a list like any other
+            let before = acc.fail_count;
+            let mut sub = Acc::default();
+            check_hlist(idx, &list, Judge::Full, &mut sub, &|| json!({"from_source": s}));
+            if sub.fail_count > 0 || !sub.known.is_empty() {
+                for f in sub.fails {
+                    fail(acc, idx, case(), f.expected, f.observed, format!("list parsed from the source does not round-trip: {}", f.note));
+                }
+                for (k, (_, _, w)) in sub.known {
+                    acc.known(&k, idx, || w);
+                }
+            }
+            if acc.fail_count == before {
+                acc.class(&format!("ok {} node(s)", list.len().min(9)));
+            }
+        }
+    }
+}
+
+// ------------------------------------------------------------------------------------------------
+// families: index -> case
+// ------------------------------------------------------------------------------------------------
+
+struct Menus {
+    /// every fifth node of the full menu plus the reduced menu: the alphabet of the triples (thorough tier)
+    medium: Vec<H>,
+    full: Vec<H>,
+    reduced: Vec<H>,
+    beyond: Vec<H>,
+    vfull: Vec<V>,
+    vreduced: Vec<V>,
+    #[allow(dead_code)]
+    dreduced: Vec<D>,
+    numbers: Vec<String>,
+}
+
+/// inner lists of length 0..=maxlen over a menu of n items: count and the idx-th one (as indices)
+fn lists_upto(n: u64, maxlen: u32) -> u64 {
+    vcore::strings_upto(n, maxlen)
+}
+
+#[derive(Clone, Copy)]
+enum Outer {
+    HBox,
+    VBox,
+    Adjust,
+    DiscPre,
+    DiscPost,
+    Insertion,
+}
+const OUTERS: [Outer; 6] = [Outer::HBox, Outer::VBox, Outer::Adjust, Outer::DiscPre, Outer::DiscPost, Outer::Insertion];
+
+fn wrap(outer: Outer, hl: &[H]) -> Option<H> {
+    // put a list into a container; items that the container's list type cannot hold make the case void
+    let vl = || hl.iter().map(h_to_v).collect::<Option<Vec<V>>>();
+    let dl = || hl.iter().map(h_to_d).collect::<Option<Vec<D>>>();
+    Some(match outer {
+        Outer::HBox => H::HBox(hbox([1, 2, 3, -4], (1, 3), GlueOrder::Fil, hl.to_vec())),
+        Outer::VBox => H::VBox(vbox([1, 2, 3, -4], vl()?)),
+        Outer::Adjust => H::Adjust(ds::Adjust { list: vl()? }),
+        Outer::DiscPre => H::Discretionary(ds::Discretionary { pre_break: dl()?, post_break: vec![], replace_count: 1 }),
+        Outer::DiscPost => H::Discretionary(ds::Discretionary { pre_break: vec![D::Char(ds::Char { char: '-', font: 0 })], post_break: dl()?, replace_count: 0 }),
+        Outer::Insertion => insertion(3, [1, 2], Glue { width: Scaled(3), ..Default::default() }, 4, vl()?),
+    })
+}
+
+fn nested1(m: &Menus, maxlen: u32, idx: u64) -> Option<Vec<H>> {
+    let n = m.reduced.len() as u64;
+    let per = lists_upto(n, maxlen);
+    let outer = OUTERS[(idx / per) as usize];
+    let inner: Vec<H> = vcore::nth_string(n, idx % per).into_iter().map(|i| m.reduced[i as usize].clone()).collect();
+    Some(vec![wrap(outer, &inner)?])
+}
+fn nested1_count(m: &Menus, maxlen: u32) -> u64 {
+    OUTERS.len() as u64 * lists_upto(m.reduced.len() as u64, maxlen)
+}
+
+/// depth 2: outer[ sibling? middle[inner list] sibling? ]
+fn nested2(m: &Menus, maxlen: u32, idx: u64) -> Option<Vec<H>> {
+    let n = m.reduced.len() as u64;
+    let per = lists_upto(n, maxlen);
+    let d = vcore::digits(idx, &[OUTERS.len() as u64, 2, 3, per]);
+    let inner: Vec<H> = vcore::nth_string(n, d[3]).into_iter().map(|i| m.reduced[i as usize].clone()).collect();
+    let middle = wrap(if d[1] == 0 { Outer::HBox } else { Outer::VBox }, &inner)?;
+    let sib = kern(65536);
+    let mid_list = match d[2] {
+        0 => vec![middle],
+        1 => vec![sib, middle],
+        _ => vec![middle, sib],
+    };
+    Some(vec![wrap(OUTERS[d[0] as usize], &mid_list)?])
+}
+fn nested2_count(m: &Menus, maxlen: u32) -> u64 {
+    OUTERS.len() as u64 * 2 * 3 * lists_upto(m.reduced.len() as u64, maxlen)
+}
+
+fn arg_matrix_sources() -> Vec<String> {
+    let mut out = vec![];
+    for (f, params) in boxl::FUNCTIONS {
+        for v in boxl::ARG_VALUES {
+            out.push(format!("{f}({v})"));
+            for p in params {
+                out.push(format!("{f}({p}={v})"));
+            }
+            for w in boxl::ARG_VALUES {
+                out.push(format!("{f}({v}, {w})"));
+            }
+        }
+        for p in params {
+            out.push(format!("{f}({p}=1, {p}=1)"));
+            out.push(format!("{f}({p}=1, 1)"));
+        }
+        out.push(format!("{f}(nosuch=1)"));
+        out.push(format!("{f}"));
+        out.push(format!("{f}({})", vec!["1"; 10].join(", ")));
+    }
+    out
+}
+
+fn number_sources(numbers: &[String]) -> Vec<String> {
+    let mut out = vec![];
+    for n in numbers {
+        out.push(format!("penalty({n})"));
+        out.push(format!("kern({n})"));
+        out.push(format!("glue(1pt, {n}, {n})"));
+        out.push(format!("chars(\"a\", {n})"));
+        out.push(format!("hbox(glue_ratio=\"{n}\")"));
+        out.push(n.clone());
+    }
+    out
+}
+
+// ------------------------------------------------------------------------------------------------
+// model self-validation (expectations recorded in the repository's tests)
+// ------------------------------------------------------------------------------------------------
+
+fn self_validate(ctx: &mut Ctx) {
+    // lang/mod.rs doc example: the list that `chars("Box") glue(1pt, 5fil, 0.075in) chars("A") kern(-0.1pt) chars("V")` denotes.
+    // The harness's constructors must build what the repository's own documentation says the text means.
+    let want: Vec<H> = vec![ch('B', 0), ch('o', 0), ch('x', 0), glue(65536, 5 * 65536, GlueOrder::Fil, (7227 * reftex::arith::round_decimals(&[0, 7, 5]) / 100) as i32 /* TeX §458: 0.075in */, GlueOrder::Normal), ch('A', 0), kern(-(reftex::arith::round_decimals(&[1]) as i32)), ch('V', 0)];
+    let src = "chars(\"Box\")\nglue(1pt, 5fil, 0.075in)\nchars(\"A\")\nkern(-0.1pt)\nchars(\"V\")\n";
+    match catch(|| parse_h(src)) {
+        Ok(Ok(got)) if got == want => {}
+        other => ctx.machinery_error(format!("self-validation: the documentation example of lang/mod.rs does not parse to the list the harness builds: {other:?}")),
+    }
+    // D20 predicate: boundary (TeX §186 clamps at 20000; the dimension scanner stops below 16384)
+    if boxl::d20_applies(16383, 1) || !boxl::d20_applies(16384, 1) || !boxl::d20_applies(-20000, 1) || boxl::d20_applies(1, 3) {
+        ctx.machinery_error("self-validation: D20 predicate boundary");
+    }
+    if !boxl::span_ok("é", 0, 2) || boxl::span_ok("é", 0, 1) || boxl::span_ok("a", 0, 2) {
+        ctx.machinery_error("self-validation: span_ok");
+    }
+}
+
+// ------------------------------------------------------------------------------------------------
+// main
+// ------------------------------------------------------------------------------------------------
+
+fn build_menus() -> Menus {
+    let full = full_menu();
+    let reduced = reduced_menu();
+    let medium: Vec<H> = full.iter().step_by(5).cloned().chain(reduced.iter().cloned()).collect();
+    Menus { medium, vfull: full.iter().filter_map(h_to_v).collect(), vreduced: reduced.iter().filter_map(h_to_v).collect(), dreduced: reduced.iter().filter_map(h_to_d).collect(), full, reduced, beyond: beyond_menu(), numbers: boxl::number_lexemes() }
+}
+// the list types hold `Rc`s, so every worker thread builds its own (identical, deterministic) menus
+thread_local! {
+    static MENUS: Menus = build_menus();
+}
+fn menus<R>(f: impl FnOnce(&Menus) -> R) -> R {
+    MENUS.with(|m| f(m))
+}
+
 fn main() {
-    eprintln!("c18: check not built yet");
-    std::process::exit(2);
+    let mut ctx = Ctx::new("C18", Level::Exploration);
+    ctx.assume("round-trip domain as the property states it: characters other than the double quote; kerns of the normal kind; and, for the same reason (no syntax), glue of the normal kind, marks without content, vboxes with the default glue set, no whatsits");
+    ctx.assume("scaled values in the round-trip families are legal TeX dimensions (|x| <= 2^30-1 sp) or, in rules, the running sentinel; nodes holding other i32 contents are enumerated in their own family and judged for totality only (printing may not produce a text that panics the parser)");
+    ctx.assume("GlueRatio equality is the subject's own (by printed text, ds.rs): the sign of a ratio and digits beyond 2^-16 are not part of the value");
+    ctx.assume("a vertical list is parsed with the public pieces cst::parse + ast::parse_vbox_using_cst + ToBoxworks (lang has no parse_vertical_list)");
+    let m = build_menus();
+    let quick = ctx.quick();
+    if let Some((fam, case)) = ctx.replay_case() {
+        let mut acc = Acc::default();
+        replay(&fam, &case, &m, &mut acc);
+        ctx.finish_replay(acc);
+    }
+    self_validate(&mut ctx);
+    let nf = m.full.len() as u64;
+    let nr = m.reduced.len() as u64;
+    let nm = m.medium.len() as u64;
+    let (n1, n2) = (nested1_count(&m, ctx.pick(2u32, 3u32)), nested2_count(&m, ctx.pick(1u32, 2u32)));
+    let (nv, nvr, nb) = (m.vfull.len() as u64, m.vreduced.len(), m.beyond.len() as u64);
+    let numbers = m.numbers.clone();
+    drop(m);
+
+    // ---- lists
+    ctx.family("h-single", &format!("every node of the full menu ({nf} nodes: every kind x value boundaries), alone"), nf, |i, acc| {
+        let l = menus(|m| vec![m.full[i as usize].clone()]);
+        check_hlist(i, &l, Judge::Full, acc, &|| json!({"family": "h-single", "idx": i}));
+        if i % 97 == 3 {
+            acc.sample(i, || json!({"list": print_h_elements(&l)}));
+        }
+    });
+    ctx.family("h-pairs", &format!("every ordered pair over the full menu ({nf}^2)"), nf * nf, |i, acc| {
+        let l = menus(|m| vec![m.full[(i / nf) as usize].clone(), m.full[(i % nf) as usize].clone()]);
+        check_hlist(i, &l, Judge::Full, acc, &|| json!({"family": "h-pairs", "idx": i}));
+    });
+    {
+        // quick: the reduced menu; thorough: the medium menu
+        let (nt, which) = if quick { (nr, "reduced") } else { (nm, "medium") };
+        ctx.family("h-triples", &format!("every ordered triple over the {which} menu ({nt}^3; medium = every fifth node of the full menu + the reduced menu)"), nt * nt * nt, |i, acc| {
+            let d = vcore::digits(i, &[nt, nt, nt]);
+            let l: Vec<H> = menus(|m| d.iter().map(|k| if quick { m.reduced[*k as usize].clone() } else { m.medium[*k as usize].clone() }).collect());
+            check_hlist(i, &l, Judge::Full, acc, &|| json!({"family": "h-triples", "idx": i, "menu": which}));
+        });
+    }
+    let inner_len = ctx.pick(2u32, 3u32);
+    ctx.family("h-nested-1", &format!("hbox / vbox / adjust / disc pre / disc post / insertion holding every list of <= {inner_len} nodes over the reduced menu ({nr} nodes; lists the container cannot hold are void)"), n1, |i, acc| {
+        if let Some(l) = menus(|m| nested1(m, inner_len, i)) {
+            check_hlist(i, &l, Judge::Full, acc, &|| json!({"family": "h-nested-1", "idx": i, "inner_len": inner_len}));
+        }
+    });
+    let inner2 = ctx.pick(1u32, 2u32);
+    ctx.family("h-nested-2", &format!("the same six containers holding an hbox or vbox (alone, after or before a kern) that holds every list of <= {inner2} nodes over the reduced menu"), n2, |i, acc| {
+        if let Some(l) = menus(|m| nested2(m, inner2, i)) {
+            check_hlist(i, &l, Judge::Full, acc, &|| json!({"family": "h-nested-2", "idx": i, "inner_len": inner2}));
+        }
+    });
+    ctx.family("v-single-and-pairs", &format!("vertical lists: every node of the full menu that a vertical list can hold ({nv}), alone, and every ordered pair over the reduced vertical menu ({nvr})"), nv + (nvr * nvr) as u64, |i, acc| {
+        let l = menus(|m| {
+            if i < nv {
+                vec![m.vfull[i as usize].clone()]
+            } else {
+                let k = (i - nv) as usize;
+                vec![m.vreduced[k / nvr].clone(), m.vreduced[k % nvr].clone()]
+            }
+        });
+        check_vlist(i, &l, acc, &|| json!({"family": "v-single-and-pairs", "idx": i}));
+    });
+    {
+        // every single-precision glue ratio from 16383 to 20001: num/512 is exact in f32 for these
+        let ranges: Vec<(u64, u64)> = if quick { vec![(16383 * 512, 16385 * 512 + 1), (19999 * 512, 20001 * 512 + 1)] } else { vec![(16383 * 512, 20001 * 512 + 1)] };
+        let n: u64 = ranges.iter().map(|(a, b)| b - a).sum();
+        let r = &ranges;
+        ctx.family("h-glue-ratio-sweep", &format!("an hbox with glue ratio num/512 for every num in {ranges:?} (every single-precision value in those intervals; >= 16384 is the D20 class)"), n, |i, acc| {
+            let mut k = i;
+            let mut num = 0;
+            for (a, b) in r {
+                if k < b - a {
+                    num = a + k;
+                    break;
+                }
+                k -= b - a;
+            }
+            let l = vec![H::HBox(hbox([0, 65536, 0, 0], (num as i32, 512), GlueOrder::Fil, vec![]))];
+            check_hlist(i, &l, Judge::Full, acc, &|| json!({"family": "h-glue-ratio-sweep", "num": num}));
+        });
+    }
+    ctx.family("h-beyond-maxdimen", &format!("{nb} nodes whose scaled fields hold +-2^30, i32::MAX, i32::MIN(+1): totality of print -> parse only"), nb, |i, acc| {
+        let l = menus(|m| vec![m.beyond[i as usize].clone()]);
+        check_hlist(i, &l, Judge::TotalityOnly, acc, &|| json!({"family": "h-beyond-maxdimen", "idx": i}));
+    });
+
+    // ---- sources
+    {
+        let k = boxl::LEXEMES.len() as u64;
+        let maxlen = ctx.pick(5u32, 6u32);
+        ctx.family("source-lexemes", &format!("every concatenation of <= {maxlen} lexemes from {:?}", boxl::LEXEMES), vcore::strings_upto(k, maxlen), |i, acc| {
+            let s: String = vcore::nth_string(k, i).into_iter().map(|j| boxl::LEXEMES[j as usize]).collect();
+            check_source(i, &s, acc);
+            if i % 100_003 == 17 {
+                acc.sample(i, || json!({"source": s}));
+            }
+        });
+        let k = boxl::PROGRAM_PIECES.len() as u64;
+        let maxlen = ctx.pick(4u32, 5u32);
+        ctx.family("source-programs", &format!("every concatenation of <= {maxlen} pieces of well-formed programs from {:?}", boxl::PROGRAM_PIECES), vcore::strings_upto(k, maxlen), |i, acc| {
+            let s: String = vcore::nth_string(k, i).into_iter().map(|j| boxl::PROGRAM_PIECES[j as usize]).collect();
+            check_source(i, &s, acc);
+            if i % 50_021 == 33 {
+                acc.sample(i, || json!({"source": s}));
+            }
+        });
+        let k = boxl::STRING_PIECES.len() as u64;
+        let maxlen = ctx.pick(4u32, 5u32);
+        ctx.family("source-string-escapes", &format!("chars(\"...\") whose string body is every concatenation of <= {maxlen} pieces from {:?} (the closing quote is part of the alphabet, so unterminated strings and text after the string occur)", boxl::STRING_PIECES), vcore::strings_upto(k, maxlen), |i, acc| {
+            let body: String = vcore::nth_string(k, i).into_iter().map(|j| boxl::STRING_PIECES[j as usize]).collect();
+            check_source(i, &format!("chars(\"{body}\")"), acc);
+        });
+        let ns = number_sources(&numbers);
+        let ns = &ns;
+        ctx.family("source-numbers", &format!("{} number lexemes (sign x integer part up to 20 digits x fraction x unit) as penalty / kern / glue stretch+shrink / font / glue_ratio argument and bare", numbers.len()), ns.len() as u64, |i, acc| check_source(i, &ns[i as usize], acc));
+        let am = arg_matrix_sources();
+        let am = &am;
+        ctx.family("source-argument-matrix", &format!("every function x every parameter (positional, keyword, two positional) x {} values of every type and near misses; duplicate, unknown, too many arguments", boxl::ARG_VALUES.len()), am.len() as u64, |i, acc| check_source(i, &am[i as usize], acc));
+    }
+    ctx.require("adjacent_chars_same_font_merge", "two adjacent characters in the same font (printed as one chars call by the list printer)");
+    ctx.require("adjacent_chars_different_font", "two adjacent characters in different fonts");
+    ctx.require("text_has_escape", "the printed text contains an escape sequence");
+    ctx.require("glue_ratio_ge_16384", "a box with a glue ratio >= 16384 (D20 class)");
+    ctx.require("format_changes_source", "a source that parses and that format rewrites");
+    ctx.require("format_accepts_what_parse_rejects", "a source with a type-level error only (format succeeds, parse does not)");
+    if std::env::var("VERIF_FAIL_CLASSES").is_ok() {
+        for (k, (n, i, w)) in FAIL_CLASSES.lock().unwrap().iter() {
+            eprintln!("{n:>8} {k}\n           first #{i}: {}", w.replace('\n', " "));
+        }
+    }
+    ctx.finish("lists: every list of the stated shapes over boundary menus, printed two ways, parsed back, formatted (non-trivial = two or more nodes, or a node that holds a list); sources: every lexeme string of the stated lengths (non-trivial = parses to a non-empty list)");
+}
+
+fn replay(fam: &str, case: &Value, m: &Menus, acc: &mut Acc) {
+    if case["kind"] == "source" {
+        check_source(0, case["text"].as_str().unwrap_or(""), acc);
+        return;
+    }
+    // known-finding witnesses wrap the case
+    let case = if case["case"].is_object() { &case["case"] } else { case };
+    let sel = &case["sel"];
+    if let Some(s) = sel["from_source"].as_str() {
+        check_source(0, s, acc);
+        return;
+    }
+    let family = sel["family"].as_str().unwrap_or(fam);
+    let i = sel["idx"].as_u64().unwrap_or(0);
+    let il = sel["inner_len"].as_u64().unwrap_or(1) as u32;
+    let nf = m.full.len() as u64;
+    let list: Option<Vec<H>> = match family {
+        "h-single" => Some(vec![m.full[i as usize].clone()]),
+        "h-pairs" => Some(vec![m.full[(i / nf) as usize].clone(), m.full[(i % nf) as usize].clone()]),
+        "h-triples" => {
+            let menu = if sel["menu"] == "reduced" { &m.reduced } else { &m.medium };
+            let nt = menu.len() as u64;
+            Some(vcore::digits(i, &[nt, nt, nt]).iter().map(|k| menu[*k as usize].clone()).collect())
+        }
+        "h-nested-1" => nested1(m, il, i),
+        "h-nested-2" => nested2(m, il, i),
+        "h-glue-ratio-sweep" => Some(vec![H::HBox(hbox([0, 65536, 0, 0], (sel["num"].as_i64().unwrap_or(0) as i32, 512), GlueOrder::Fil, vec![]))]),
+        "h-beyond-maxdimen" => {
+            check_hlist(0, &vec![m.beyond[i as usize].clone()], Judge::TotalityOnly, acc, &|| sel.clone());
+            return;
+        }
+        "v-single-and-pairs" => {
+            let nv = m.vfull.len() as u64;
+            let l = if i < nv {
+                vec![m.vfull[i as usize].clone()]
+            } else {
+                let k = (i - nv) as usize;
+                vec![m.vreduced[k / m.vreduced.len()].clone(), m.vreduced[k % m.vreduced.len()].clone()]
+            };
+            check_vlist(0, &l, acc, &|| sel.clone());
+            return;
+        }
+        _ => {
+            eprintln!("replay: unknown family {family}");
+            std::process::exit(2);
+        }
+    };
+    match list {
+        Some(l) => check_hlist(0, &l, Judge::Full, acc, &|| sel.clone()),
+        None => {
+            eprintln!("replay: void case");
+            std::process::exit(2);
+        }
+    }
 }
